@@ -1,5 +1,5 @@
 #!/bin/bash
-# seedverify.sh <worktree> <seeded-name> <demo command...>
+# seedverify.sh <worktree> <seeded-name> <demo command...>        (MUT=<file> selects the mutation diff, default MUTATION.diff)
 # Confirms, in the scratch worktree a sub-agent worked in, that its change (MUTATION.diff)
 #  (1) compiles and passes the pinned suite, (2) makes the demonstration fail, and that
 #  (3) the demonstration passes on the unchanged tree.  Stores patch.diff / demo.diff / NOTES.md /
@@ -9,14 +9,14 @@ WT=$1; NAME=$2; shift 2
 DEMO_CMD="$*"
 OUT=/verif/seeded/$NAME
 mkdir -p "$OUT"
-cp "$WT/MUTATION.diff" "$OUT/patch.diff" || exit 2
+cp "$WT/${MUT:-MUTATION.diff}" "$OUT/patch.diff" || exit 2
 cp "$WT/DEMO.diff" "$OUT/demo.diff" || exit 2
 cp "$WT/NOTES.md" "$OUT/NOTES.md" 2>/dev/null
 export CARGO_NET_OFFLINE=true
 cd "$WT" || exit 2
 LOG=$OUT/verify.log
 : > "$LOG"
-clean() { git reset -q; git checkout -q -- . ; git clean -fdq -e MUTATION.diff -e DEMO.diff -e NOTES.md -e INSTRUCTIONS.md -e target; }
+clean() { git reset -q; git checkout -q -- . ; git clean -fdq -e MUTATION.diff -e M1.diff -e M2.diff -e DEMO.diff -e NOTES.md -e INSTRUCTIONS.md -e target; }
 say() { echo "$*" | tee -a "$LOG"; }
 clean
 say "== base: $(git rev-parse --short HEAD)"
